@@ -13,10 +13,12 @@
 // Oracle = acceptance predicate + arithmetic decoder of harness/common/ref_codec.h, which
 // transcribe the property statement.
 #define VF_MAIN_TU
+#include "early.h"
 #include "verif.h"
 #include "alloc.h"
 #include "ref_codec.h"
 #include "st_codecs.h"
+#include "early_battery.h"
 
 using vf::Ctx;
 using vf::strf;
@@ -445,6 +447,7 @@ static void build(vf::Plan &plan, const vf::Opts &o)
         plan.stage("b64:0..15-groups x pad{0,1,2} x (valid|one-defect-at-each-position)", 16 * 3 * 6 * 60,
                    [mk](uint64_t i, Ctx &c) { check_input(c, B64, mk(i)); }, [mk](uint64_t i) { return desc(mk(i)); });
     }
+    vf_early::add_stage(plan);
 }
 
 VF_MAIN("C15", build)
